@@ -55,18 +55,24 @@ func buildSched(tmp string) (bin string, instrumented []string, err error) {
 				return "", nil, fmt.Errorf("cannot parse %s: %v", f, perr)
 			}
 			changed := false
+			syncName := "sync"
 			for _, im := range af.Imports {
 				if im.Path.Value == `"sync"` {
 					im.Path.Value = strconv.Quote(shimImport)
 					if im.Name == nil {
 						im.Name = ast.NewIdent("sync")
 					}
+					syncName = im.Name.Name
 					changed = true
 				}
 			}
-			if !changed {
+			if !changed || syncName == "_" || syncName == "." {
+				if changed {
+					return "", nil, fmt.Errorf("%s imports sync as %q: not instrumentable", f, syncName)
+				}
 				continue
 			}
+			insertYields(af, syncName)
 			var buf bytes.Buffer
 			if err := format.Node(&buf, fset, af); err != nil {
 				return "", nil, err
@@ -85,13 +91,83 @@ func buildSched(tmp string) (bin string, instrumented []string, err error) {
 		return "", nil, err
 	}
 	bin = filepath.Join(tmp, "sched")
-	cmd := exec.Command("go", "build", "-tags", "verifsched", "-overlay", ovPath, "-o", bin, "./schedcmd")
+	args := []string{"build", "-tags", "verifsched", "-overlay", ovPath, "-o", bin}
+	if mf := os.Getenv("VERIF_MODFILE"); mf != "" {
+		args = append(args, "-modfile="+mf)
+	}
+	cmd := exec.Command("go", append(args, "./schedcmd")...)
 	cmd.Dir = filepath.Join(VerifDir, "mc")
 	cmd.Env = goEnv()
 	if out, berr := cmd.CombinedOutput(); berr != nil {
 		return "", instrumented, fmt.Errorf("instrumented build failed: %v\n%s", berr, out)
 	}
 	return bin, instrumented, nil
+}
+
+// insertYields adds a scheduling point at the head of every loop body of every function that
+// mentions a package-level variable whose declaration uses package sync (e.g. a sync.Pool).
+func insertYields(af *ast.File, syncName string) {
+	usesSync := func(n ast.Node) bool {
+		found := false
+		ast.Inspect(n, func(x ast.Node) bool {
+			if se, ok := x.(*ast.SelectorExpr); ok {
+				if id, ok := se.X.(*ast.Ident); ok && id.Name == syncName {
+					found = true
+				}
+			}
+			return !found
+		})
+		return found
+	}
+	shared := map[string]bool{}
+	for _, d := range af.Decls {
+		gd, ok := d.(*ast.GenDecl)
+		if !ok || gd.Tok != token.VAR {
+			continue
+		}
+		for _, sp := range gd.Specs {
+			vs := sp.(*ast.ValueSpec)
+			if usesSync(vs) {
+				for _, n := range vs.Names {
+					shared[n.Name] = true
+				}
+			}
+		}
+	}
+	if len(shared) == 0 {
+		return
+	}
+	for _, d := range af.Decls {
+		fd, ok := d.(*ast.FuncDecl)
+		if !ok || fd.Body == nil {
+			continue
+		}
+		mentions := false
+		ast.Inspect(fd.Body, func(x ast.Node) bool {
+			if id, ok := x.(*ast.Ident); ok && shared[id.Name] {
+				mentions = true
+			}
+			return !mentions
+		})
+		if !mentions {
+			continue
+		}
+		yield := func() ast.Stmt {
+			return &ast.ExprStmt{X: &ast.CallExpr{
+				Fun:  &ast.SelectorExpr{X: ast.NewIdent(syncName), Sel: ast.NewIdent("Yield")},
+				Args: []ast.Expr{&ast.BasicLit{Kind: token.STRING, Value: strconv.Quote("loop:" + fd.Name.Name)}},
+			}}
+		}
+		ast.Inspect(fd.Body, func(x ast.Node) bool {
+			switch l := x.(type) {
+			case *ast.ForStmt:
+				l.Body.List = append([]ast.Stmt{yield()}, l.Body.List...)
+			case *ast.RangeStmt:
+				l.Body.List = append([]ast.Stmt{yield()}, l.Body.List...)
+			}
+			return true
+		})
+	}
 }
 
 type schedStats struct {
@@ -146,7 +222,7 @@ func newSchedStats() *schedStats {
 }
 
 // runSched runs a list of scenarios on `procs` worker processes (each scenario sharded over all of them).
-func runSched(bin string, scenarios []string, bound int, procs int, maxExec int64) (*schedStats, map[string]*schedStats, error) {
+func runSched(bin string, scenarios []string, bound int, procs int, maxExec int64, fine bool) (*schedStats, map[string]*schedStats, error) {
 	per := map[string]*schedStats{}
 	var mu sync.Mutex
 	var firstErr error
@@ -163,6 +239,9 @@ func runSched(bin string, scenarios []string, bound int, procs int, maxExec int6
 				}
 				cmd := exec.Command(bin, "explore", strings.Join(scenarios[lo:hi], ";"), strconv.Itoa(bound), strconv.Itoa(sh), strconv.Itoa(procs), strconv.FormatInt(maxExec, 10))
 				cmd.Env = append(os.Environ(), "GOMAXPROCS=1")
+				if fine {
+					cmd.Env = append(cmd.Env, "VERIF_FINE=1")
+				}
 				var stderr bytes.Buffer
 				cmd.Stderr = &stderr
 				out, err := cmd.Output()
@@ -250,11 +329,12 @@ func CheckC14(r *Report) {
 		r.Note("%v", err)
 		r.NotExhaustive("the instrumented build failed (exotic use of package sync in the edited tree?); only the race pass was run")
 	} else {
+		fine := false
 		add := func(name string, scenarios []string, bound int, maxExec int64) {
 			if r.TooMany() {
 				return
 			}
-			tot, per, err := runSched(bin, scenarios, bound, 16, maxExec)
+			tot, per, err := runSched(bin, scenarios, bound, 16, maxExec, fine)
 			if err != nil {
 				r.Note("%s: %v", name, err)
 				r.NotExhaustive(name + ": an explorer worker failed")
@@ -353,6 +433,26 @@ func CheckC14(r *Report) {
 			}
 			add("4 threads x 1 call (preemption bound 2)", s, 2, 0)
 		}
+		// (6) fine-grained mode: scheduling points also at the head of every loop body of the functions
+		// that use the shared pool (inserted by the overlay generator), preemption-bounded
+		fine = true
+		s = nil
+		for _, p := range multisets(parseBodies, 2) {
+			s = append(s, scnOf([]int{p[0]}, []int{p[1]}))
+		}
+		fb := 2
+		if thorough {
+			fb = 3
+		}
+		add(fmt.Sprintf("2 threads x 1 call, loop-level scheduling points (preemption bound %d)", fb), s, fb, 0)
+		if thorough {
+			s = nil
+			for _, p := range multisets([]int{0, 1, 5, 7}, 3) {
+				s = append(s, scnOf([]int{p[0]}, []int{p[1]}, []int{p[2]}))
+			}
+			add("3 threads x 1 call, loop-level scheduling points (preemption bound 2)", s, 2, 0)
+		}
+		fine = false
 		// vacuity guards: several pool-answer variants and several final pool sizes must have occurred
 		if total.Executions > 0 && (len(total.PoolSizes) < 2 || total.EnvDeviation == 0) {
 			r.Note("VACUITY WARNING: explorations never produced two pool outcomes (pool sizes %v, executions with a non-default pool answer %d): nothing collided", total.PoolSizes, total.EnvDeviation)
@@ -361,7 +461,11 @@ func CheckC14(r *Report) {
 	}
 	// (5) race side pass
 	raceBin := filepath.Join(tmp, "racepass")
-	cmd := exec.Command("go", "build", "-race", "-o", raceBin, "./cmd/racepass")
+	rargs := []string{"build", "-race", "-o", raceBin}
+	if mf := os.Getenv("VERIF_MODFILE"); mf != "" {
+		rargs = append(rargs, "-modfile="+mf)
+	}
+	cmd := exec.Command("go", append(rargs, "./cmd/racepass")...)
 	cmd.Dir = filepath.Join(VerifDir, "mc")
 	cmd.Env = goEnv()
 	if out, berr := cmd.CombinedOutput(); berr != nil {
